@@ -638,3 +638,11 @@ func asciiString(t *rapid.T, n int, label string) string {
 	}
 	return b.String()
 }
+
+// Regex is the exported handle on the small RE2 grammar: a pattern and a sampler of matches.
+type Regex struct{ n *reNode }
+
+func GenRegex(t *rapid.T, depth int, label string) Regex { return Regex{genRegex(t, depth, label)} }
+func (r Regex) Pattern() string                         { return r.n.pattern() }
+func (r Regex) Sample(t *rapid.T, label string) string  { return r.n.sample(t, label) }
+func JSONEscape(s string) string                        { return jsonEscape(s) }
